@@ -353,8 +353,14 @@ func forgedCRLEntryVariants(c *corpus.Corpus) []*Target {
 					en.Content = []byte{code}
 				}
 				ser := e2.Children[0]
-				ser.Content = append([]byte{0x11, byte(vi), byte(k)}, ser.Content...)
-				ml.Children = append(ml.Children, e2)
+				// serial numbers in DESCENDING order of appearance (and above / below the existing ones alternately): a rule that
+				// re-orders the list by serial changes which offender comes first
+				ser.Content = append([]byte{byte(0x7f - 8*k - vi), byte(vi), byte(k)}, ser.Content...)
+				if vi%2 == 1 {
+					ml.Children = append([]*forge.Node{e2}, ml.Children...)
+				} else {
+					ml.Children = append(ml.Children, e2)
+				}
 			}
 			der := m.Bytes()
 			if crl, ok, _ := corpus.ParseCRL(der); ok {
